@@ -310,6 +310,13 @@ def _relative(rng, toks, idx, known_ops=()):
                 v[1] = _FORM_FOR_CHECKED[v[1]]
             return v
         return None
+    elif k == 11 and len(idx) >= 2:
+        # both operands identical (the driver then also runs `&x op &x` with both references to one object)
+        i2 = rng.choice([t for t in idx if t != i])
+        v[i2] = toks[i]
+        if len(v) > 1 and v[1] in _FORMS:
+            v[1] = "*"
+        return v
     else:
         return list(toks)                                        # plain repeat
     if not (0 <= s2 <= 18 and abs(c2) <= M):
